@@ -129,12 +129,18 @@ package sqlittle
 
 // Column resolution: every requested name is the rowid alias or a column of the schema, with a
 // non-negative position in the stored record.
+// A declared column wins over the rowid aliases: a name that Schema.Column finds is that column
+// (the rowid only if the column is the INTEGER PRIMARY KEY alias); only an unknown name may be one of
+// ROWID / OID / _ROWID_.
+//@ macro CIRULE(s, name, ci) = (COLIDX(s, name) >= 0 ==> (ci.rowid <==> s.Columns[COLIDX(s, name)].Rowid) && ci.rowIndex == COLIDX(s, name)) && (COLIDX(s, name) < 0 ==> ci.rowid)
 //@ func sqlittle.toColumnIndexRowid
 //@   props C01 C10 C05
 //@   modifies alloc
 //@   requires s != nil
 //@   ensures [ok] err == nil ==> CIS_OK(r0)
+//@   ensures [resolve] err == nil ==> len(r0) == len(columns) && (forall k int :: 0 <= k && k < len(columns) ==> CIRULE(s, columns[k], r0[k]))
 //@   loop 1 invariant fresh(res)
+//@   loop 1 invariant [resolve] len(res) == $i && (forall k int :: 0 <= k && k < $i ==> CIRULE(s, columns[k], res[k]))
 //@   loop 1 invariant forall qc int :: 0 <= qc && qc < len(res) ==> res[qc].rowid || (res[qc].col != nil && res[qc].rowIndex >= 0)
 
 //@ func sqlittle.toColumnIndexNonRowid
